@@ -191,8 +191,8 @@ def run(rep: Report) -> None:
     # R20.3
     n3 = 0
     for q, fi in prog.functions.items():
-        if fi.module in ("hypothesis", "pytest") or fi.name == "__new__":
-            continue
+        if fi.name == "__new__":
+            continue       # the shipped test helpers (measured.pytest, measured.hypothesis) are package code like any other
         ws = [w for w in writes_in(prog, resolver, q) if w.location.endswith("._known")]
         if not ws:
             continue
